@@ -178,6 +178,42 @@ theorem C01_counterexample : ¬ C01_full := by
   revert this
   decide +kernel
 
+
+/-! ## second witness: a live edit while a nested Watch is registered stalls the enclosing Watch
+
+`Watch: T0 >= 0 / (Watch: T0 = 2 / Mark: m1) / Wait: 2s / Mark: m2`; `Mark: z` is appended at tick 10.
+Loaded from the start the final method sets `m2`; the edited run never does: the restarted handler of
+the outer Watch finds `interrupt_registered` on the nested Watch and waits for *its* condition. -/
+
+def nProgOf (extra : Bool) : Prog := #[
+  { kind := .program, parent := none, children := if extra then [1, 6] else [1], threshold := none, keyPath := [0] },
+  { kind := .watch ⟨0, .ge, 0⟩, parent := some 0, children := [2, 4, 5], threshold := none, keyPath := [0, 1] },
+  { kind := .watch ⟨0, .eq, 2⟩, parent := some 1, children := [3], threshold := none, keyPath := [0, 1, 1] },
+  { kind := .mark "m1", parent := some 2, children := [], threshold := none, keyPath := [0, 1, 1, 1] },
+  { kind := .wait 2, parent := some 1, children := [], threshold := none, keyPath := [0, 1, 2] },
+  { kind := .mark "m2", parent := some 1, children := [], threshold := none, keyPath := [0, 1, 3] }] ++
+  (if extra then #[{ kind := .mark "z", parent := some 0, children := [], threshold := none, keyPath := [0, 2] }] else #[])
+
+def nOld : Method := ⟨nProgOf false, #[0, 1, 2, 3, 4, 5], #["P", "Watch|T0 >= 0", "Watch|T0 = 2", "Mark|m1", "Wait|2s", "Mark|m2"],
+  [(1, "Watch: T0 >= 0"), (2, "    Watch: T0 = 2"), (3, "        Mark: m1"), (4, "    Wait: 2s"), (5, "    Mark: m2")]⟩
+def nNew : Method := ⟨nProgOf true, #[0, 1, 2, 3, 4, 5, 6],
+  #["P", "Watch|T0 >= 0", "Watch|T0 = 2", "Mark|m1", "Wait|2s", "Mark|m2", "Mark|z"],
+  [(1, "Watch: T0 >= 0"), (2, "    Watch: T0 = 2"), (3, "        Mark: m1"), (4, "    Wait: 2s"), (5, "    Mark: m2"), (6, "Mark: z")]⟩
+
+def nTicks (p : Prog) (s : St) (from_ n : Nat) : St :=
+  (List.range n).foldl (fun s i => (tick p s ⟨(from_ + i : Nat) / 8, (from_ + i : Nat) / 8, 0, [0]⟩).1) s
+
+def nMM : MM := { m := nOld, st := nTicks (nProgOf false) (init (nProgOf false)) 0 10 }
+
+/-- Loaded from the start the final method sets `z` and `m2`; the edit at tick 10 is accepted while the
+    nested Watch is registered and the outer one activated; 200 ticks later `m2` has still not been set. -/
+theorem C01_witness_nested_interrupt :
+    (nTicks (nProgOf true) (init (nProgOf true)) 0 60).marks = ["z", "m2"] ∧
+    (nMM.st.rt 2).interruptRegistered = true ∧ (nMM.st.rt 1).activated = true ∧
+    (edit nMM nNew).2 = .merged ∧
+    (nTicks (nProgOf true) (edit nMM nNew).1.st 10 200).marks = ["z"] := by
+  decide +kernel
+
 /-! ## C14, edit half: an interrupt of injected code does not survive a live edit -/
 
 /-- Interrupts whose node is not part of the new method (injected code has fresh ids) are not
